@@ -164,9 +164,12 @@ def getvarpnc(f, varkeys, coordkeys=None, copy=True):
             coordvar = f.variables[coordkey]
             propd = dict([(k, getattr(coordvar, k))
                           for k in coordvar.ncattrs()])
+            coordvals = coordvar[...]
+            if copy:
+                coordvals = coordvals.copy()
             outf.createVariable(coordkey, coordvar.dtype.char,
                                 coordvar.dimensions,
-                                values=coordvar[...], **propd)
+                                values=coordvals, **propd)
             for dk in coordvar.dimensions:
                 if dk not in outf.dimensions:
                     dv = outf.createDimension(dk, len(f.dimensions[dk]))
@@ -508,7 +511,7 @@ def slice_dim(f, slicedef, fuzzydim=True):
         else:
             axis = list(var.dimensions).index(dimkey)
             vout = var[...].swapaxes(
-                0, axis)[dmin:dmax:dstride].swapaxes(0, axis)
+                0, axis)[dmin:dmax:dstride].swapaxes(0, axis).copy()
 
             newlen = vout.shape[axis]
             newdim = outf.createDimension(dimkey, newlen)
